@@ -582,7 +582,7 @@ func (rs *refSource) sectionFeatures(sec *refSection, feat map[string]bool) {
 	}
 }
 
-func (rs *refSource) compile(secName string) (*refProg, int, error) {
+func (rs *refSource) compile(secName string, lenient bool) (*refProg, int, error) {
 	sec, ok := rs.Sections[secName]
 	if !ok {
 		return nil, 0, unsupported("cp names an unknown section %s", secName)
@@ -725,7 +725,7 @@ func (rs *refSource) compile(secName string) (*refProg, int, error) {
 				in.Pseudo = true
 				if pt, ok := parsePort(a[0], 'o'); ok {
 					// mov oK, rX
-					if iomode != "sync" {
+					if iomode != "sync" && !lenient {
 						e = unsupported("line %d: mov to an output with iomode %q", it.Line, iomode)
 						break
 					}
@@ -738,7 +738,7 @@ func (rs *refSource) compile(secName string) (*refProg, int, error) {
 					break
 				}
 				if pt, ok := parsePort(a[1], 'i'); ok {
-					if iomode != "sync" {
+					if iomode != "sync" && !lenient {
 						e = unsupported("line %d: mov from an input with iomode %q", it.Line, iomode)
 						break
 					}
@@ -832,7 +832,7 @@ func (rs *refSource) network() (*refNet, error) {
 		if !ok {
 			var err error
 			var d int
-			p, d, err = rs.compile(cp.RomCode)
+			p, d, err = rs.compile(cp.RomCode, false)
 			if err != nil {
 				return nil, err
 			}
